@@ -174,8 +174,18 @@ func c20Exec(c Sx) Sx {
 				})
 			})
 		}
-		r.WrapHTTPHandlers(ws...).ServeHTTP(httptest.NewRecorder(), httptest.NewRequest("GET", "/x", nil))
-		return LS(append([]Sx{A("wrap")}, evs...))
+		// the caller's list is used twice (as for two routers sharing one wrapper list): both compositions are the same
+		h1 := r.WrapHTTPHandlers(ws...)
+		h2 := r.WrapHTTPHandlers(ws...)
+		h1.ServeHTTP(httptest.NewRecorder(), httptest.NewRequest("GET", "/x", nil))
+		first := LS(append([]Sx{A("wrap")}, evs...))
+		evs = nil
+		h2.ServeHTTP(httptest.NewRecorder(), httptest.NewRequest("GET", "/x", nil))
+		second := LS(append([]Sx{A("wrap")}, evs...))
+		if first.String() != second.String() {
+			return L(A("wrap"), A("second-use-of-the-list-differs"), first, second)
+		}
+		return second
 	case "wraph":
 		n, k := c.List[1].Int(), c.List[2].Int()
 		var evs []Sx
